@@ -4,7 +4,8 @@
 // big-rational arithmetic, independent of the model) on the implementation's results.
 //
 //	D k s n scaleBits offsetBits raw start variant muxbits be ; T:gotype v   decode of a standard signal (k: c,f,i,d;
-//	                                          variant = how the type was obtained: constructor, Clone, UpdateSigned, setters)
+//	                                          variant = how the type was obtained: constructor, Clone, UpdateSigned, setters,
+//	                                          StandardSignal.SetType on a placed signal that had another type)
 //	N n cnt (name idx)* raw ; name|-1                 decode of an enum signal
 //	R k s n ; minBits maxBits                         type range (k: i,d)
 //	S v ; r        V n ; r                            calcSizeFromValue / calcValueFromSize
@@ -121,11 +122,47 @@ func baseType(ts typSpec, signed bool, scale, offset float64) (*acmelib.SignalTy
 //	3 built with the opposite signedness, then UpdateSigned        4 UpdateSigned flipped and flipped
 //	back around a first use               5 built with other scale / offset / min / max, then
 //	SetScale / SetOffset / SetMin / SetMax  6 variant 3 then Clone()  7 clone, then setters on the clone
-const nVariants = 8
+//
+// 8..10: the type object is built by its constructor, but the SIGNAL is created and placed with
+// another type and receives the type through StandardSignal.SetType afterwards (SetType must succeed
+// and Type() must be the object that was set); the previous type has
+//
+//	8 the same kind / size / signedness and another scale / offset / min / max
+//	9 another size (one bit less; for 1-bit types: another kind)      10 the opposite signedness
+const nVariants = 11
 
 var variantCounter int
 
-var variantName = [nVariants]string{"constructor", "clone", "clone-of-clone", "update-signed", "update-signed-twice", "setters", "update-signed-clone", "clone-setters"}
+var variantName = [nVariants]string{"constructor", "clone", "clone-of-clone", "update-signed", "update-signed-twice", "setters", "update-signed-clone", "clone-setters",
+	"set-type-same-shape", "set-type-other-size", "set-type-other-signedness"}
+
+// previousType: the type a signal of the variants 8..10 has before SetType gives it the type under test
+func previousType(ts typSpec, variant int) (*acmelib.SignalType, error) {
+	if variant == 10 && ts.kind == 'f' {
+		variant = 8 // a flag type has no signedness
+	}
+	switch variant {
+	case 9:
+		if ts.size == 1 {
+			if ts.kind == 'f' {
+				return acmelib.NewIntegerSignalType("p", 1, false)
+			}
+			return acmelib.NewFlagSignalType("p"), nil
+		}
+		o := ts
+		o.size = ts.size - 1
+		return baseType(o, ts.signed, ts.scale*3+1, ts.offset-17.5)
+	case 10:
+		return baseType(ts, !ts.signed, ts.scale, ts.offset)
+	default:
+		t, err := baseType(ts, ts.signed, ts.scale*3+1, ts.offset-17.5)
+		if err == nil && ts.kind != 'f' {
+			t.SetMin(-12345)
+			t.SetMax(54321)
+		}
+		return t, err
+	}
+}
 
 func mkType(ts typSpec, variant int) (*acmelib.SignalType, error) {
 	if ts.kind == 'f' && (variant == 3 || variant == 4 || variant == 6) {
@@ -177,8 +214,9 @@ type decoder struct {
 	start   int
 	msg     *acmelib.Message
 	variant int
-	muxBits int  // size of the multiplexer signal placed in front of the signal (0 = none)
-	be      bool // the message is big endian (the signal then crosses a byte boundary)
+	muxBits int    // size of the multiplexer signal placed in front of the signal (0 = none)
+	be      bool   // the message is big endian (the signal then crosses a byte boundary)
+	setType string // variants 8..10: note for the failure text when Type() is not the type that was set
 }
 
 // muxInFront: every third decoder whose signal leaves room puts a multiplexer signal at bit 0 of
@@ -237,7 +275,13 @@ func newDecoderV(ts typSpec, start, variant, muxBits int, be bool) *decoder {
 	if err != nil {
 		panic(err)
 	}
-	sig, err := acmelib.NewStandardSignal("s", typ)
+	first, note := typ, ""
+	if variant >= 8 {
+		if first, err = previousType(ts, variant); err != nil {
+			panic(err)
+		}
+	}
+	sig, err := acmelib.NewStandardSignal("s", first)
 	if err != nil {
 		panic(err)
 	}
@@ -252,6 +296,22 @@ func newDecoderV(ts typSpec, start, variant, muxBits int, be bool) *decoder {
 	if be && variant%2 == 1 {
 		msg.SetByteOrder(acmelib.MessageByteOrderBigEndian) // ... or after them
 	}
+	if variant >= 8 {
+		// decode once with the previous type, then give the signal the type under test
+		func() {
+			defer func() { _ = recover() }()
+			msg.SignalLayout().Decode(make([]byte, 8))
+		}()
+		if err := sig.SetType(typ); err != nil {
+			// a refused SetType leaves the signal with its previous type: nothing C03 speaks about;
+			// the case is judged on a signal created with the type (counted in the summary)
+			setTypeRefused++
+			return newDecoderV(ts, start, 0, muxBits, be)
+		}
+		if sig.Type() != typ {
+			note = fmt.Sprintf("; SetType reported success but Type() is still the previous type (size %d, scale %g, offset %g)", sig.Type().Size(), sig.Type().Scale(), sig.Type().Offset())
+		}
+	}
 	if variant == 4 && ts.kind != 'f' {
 		// use the type once with the other signedness, then restore it
 		typ.UpdateSigned(!ts.signed)
@@ -261,8 +321,11 @@ func newDecoderV(ts typSpec, start, variant, muxBits int, be bool) *decoder {
 		}()
 		typ.UpdateSigned(ts.signed)
 	}
-	return &decoder{ts, start, msg, variant, muxBits, be}
+	return &decoder{ts: ts, start: start, msg: msg, variant: variant, muxBits: muxBits, be: be, setType: note}
 }
+
+// setTypeRefused: SetType calls of the variants 8..10 that returned an error
+var setTypeRefused int
 
 // payloadBE: the signal occupies the big-endian positions start .. start+size-1 (counted most
 // significant bit first through the 8 bytes): the payload read as one big-endian number has the raw
@@ -461,6 +524,7 @@ func decodeCase(rc *recorder, d *decoder, raw, noise uint64, cat string) {
 	top := ts.signed && (raw>>(ts.size-1))&1 == 1
 	nontriv := top || ts.offset != 0 || ts.scale != 1
 	rc.hist[fmt.Sprintf("align-%s-%d-%d", map[bool]string{false: "le", true: "be"}[d.be], d.start%8, (d.start+ts.size)%8)]++
+	rc.hist["type-via-"+variantName[d.variant]]++
 	dec, pan := d.run(raw, noise)
 	key := uint64(ts.size)<<56 | (raw & (1<<56 - 1))
 	sg := "unsigned"
@@ -515,7 +579,7 @@ func decodeCase(rc *recorder, d *decoder, raw, noise uint64, cat string) {
 			via += fmt.Sprintf("-big-endian-start%d-end%d", d.start%8, (d.start+ts.size)%8)
 		}
 		rc.fail("c03-decode-"+kindName(ts.kind)+"-"+sg+shape+via, key, line,
-			fmt.Sprintf("size %d raw %d scale %g offset %g (type obtained by %s): decoded %s, raw*scale+offset rule gives %s", ts.size, raw, ts.scale, ts.offset, variantName[d.variant], obs, exp))
+			fmt.Sprintf("size %d raw %d scale %g offset %g (type obtained by %s): decoded %s, raw*scale+offset rule gives %s", ts.size, raw, ts.scale, ts.offset, variantName[d.variant], obs, exp)+d.setType)
 	}
 }
 
@@ -1351,6 +1415,9 @@ func main() {
 	}
 	defer sf.Close()
 	fmt.Fprintf(sf, "cases %d\nnontrivial %d\n", rc.cases, len(rc.nontrivial))
+	if setTypeRefused > 0 {
+		rc.hist["set-type-refused(decoders-rebuilt-with-the-constructor)"] = setTypeRefused
+	}
 	for k, v := range rc.hist {
 		fmt.Fprintf(sf, "hist %s %d\n", k, v)
 	}
